@@ -33,6 +33,10 @@ VERIF = os.path.dirname(os.path.dirname(os.path.abspath(__file__)))
 REPO = os.environ.get("NGS_REPO", "/repo")
 # number of deterministic unit batches (one fresh process each)
 BATCHES = int(os.environ.get("VERIF_BATCHES", "48"))
+# address-space limit of every child process: a runaway allocation in the
+# code under test becomes a MemoryError inside the case that caused it
+# instead of an out-of-memory kill of some process
+MEM_LIMIT = int(float(os.environ.get("VERIF_MEM_LIMIT_GB", "4")) * 2 ** 30)
 ECHO = os.environ.get("VERIF_ECHO", "1") != "0"
 MAX_RECORDS_PER_SIG = 25      # full records kept per signature per unit
 
@@ -194,6 +198,12 @@ def scratch_root():
 def _worker_init(modname, scratch):
     global _MOD, _SCRATCH
     import logging
+    import resource
+    if MEM_LIMIT > 0:
+        try:
+            resource.setrlimit(resource.RLIMIT_AS, (MEM_LIMIT, MEM_LIMIT))
+        except (ValueError, OSError):
+            pass
     import tempfile
     _SCRATCH = os.path.join(scratch, "w%d" % os.getpid())
     os.makedirs(_SCRATCH, exist_ok=True)
@@ -294,10 +304,56 @@ def _confirm_child(arg):
             return [], traceback.format_exc()
 
 
+def _child_main(conn, modname, scratch, fn, arg):
+    try:
+        _worker_init(modname, scratch)
+        out = fn(arg)
+    except BaseException:
+        out = ("child-failed", traceback.format_exc())
+    try:
+        conn.send(out)
+        conn.close()
+    finally:
+        sys.stdout.flush()
+        os._exit(0)
+
+
+def _run_children(ctx, modname, scratch, fn, args, jobs):
+    """fn(arg) for every arg, each in its own freshly forked process, at
+    most `jobs` at a time; yields (position, result). A child that dies
+    without delivering a result (killed, crashed interpreter) is reported as
+    ("child-died", exit code) instead of being waited for forever."""
+    from multiprocessing.connection import wait
+    pending = list(enumerate(args))[::-1]
+    running = {}
+    while pending or running:
+        while pending and len(running) < max(1, jobs):
+            pos, arg = pending.pop()
+            rd, wr = ctx.Pipe(duplex=False)
+            pr = ctx.Process(target=_child_main,
+                             args=(wr, modname, scratch, fn, arg))
+            pr.start()
+            wr.close()
+            running[rd] = (pos, pr)
+        for rd in wait(list(running), timeout=5):
+            pos, pr = running.pop(rd)
+            try:
+                out = rd.recv()
+            except (EOFError, OSError):
+                pr.join()
+                out = ("child-died", pr.exitcode)
+            rd.close()
+            pr.join()
+            yield pos, out
+
+
 def _in_fresh_child(ctx, modname, scratch, arg):
-    with ctx.Pool(1, initializer=_worker_init, initargs=(modname, scratch),
-                  maxtasksperchild=1) as pool:
-        return pool.apply(_confirm_child, (arg,))
+    for _, out in _run_children(ctx, modname, scratch, _confirm_child,
+                                [arg], 1):
+        if isinstance(out, tuple) and out and out[0] in ("child-died",
+                                                         "child-failed"):
+            return [], "%s: %s" % out
+        return out
 
 
 def _preimport():
@@ -384,17 +440,23 @@ def _run_check(mod, modname, prop_id, tier, seed, jobs, scratch, t0,
     # complex units); each batch runs in its own fresh child process
     nb = max(1, min(n_units, BATCHES))
     batches = [work[b::nb] for b in range(nb)]
-    with ctx.Pool(max(1, jobs), initializer=_worker_init,
-                  initargs=(modname, scratch), maxtasksperchild=1) as pool:
-        for out in pool.imap_unordered(_batch_run, batches, chunksize=1):
-            for i, res, err in out:
-                if err:
-                    errors.append((i, err))
-                if isinstance(res, tuple) and res[0] == "echo":
-                    if res[1] is not None:
-                        echoes.append(res[1])
-                    continue
-                results[i] = res
+    for pos, out in _run_children(ctx, modname, scratch, _batch_run,
+                                  batches, jobs):
+        if isinstance(out, tuple) and out and out[0] in ("child-died",
+                                                         "child-failed"):
+            errors.append((batches[pos][0][0],
+                           "the process running units %r ended without a "
+                           "result (%s: %s)" % ([i for i, _ in batches[pos]],
+                                                out[0], out[1])))
+            continue
+        for i, res, err in out:
+            if err:
+                errors.append((i, err))
+            if isinstance(res, tuple) and res[0] == "echo":
+                if res[1] is not None:
+                    echoes.append(res[1])
+                continue
+            results[i] = res
     if errors:
         errors.sort()
         print("HARNESS-ERROR property=%s unit=%d\n%s"
